@@ -112,6 +112,15 @@ CHECKS = {
               'variant the pointer tensor must have one entry per summed-out index and, plugged back into the operands, attain the maximum in every '
               'cell. A hook on reduce_equation counts reductions that really dropped a stride-0 dimension.'),
         design_ref='DESIGN.md §4 C07'),
+    'C13': dict(
+        technique='boundary monitor on equal/allclose/equal_default/allclose_default/MultiTensor.allclose vs torch.equal/allclose on independently densified, constructively generated pairs (runtime monitoring)',
+        text=('Runtime monitoring: pairs of well-typed patterns over a common shape are generated from their support relation (identical, nested, one '
+              'side full, overlapping, disjoint; union covering the tensor or not): equal by construction through two different patterns (also with '
+              'different defaults when every element is backed on some side), then perturbed in one element by 0, atol/2, 2*atol or a different value, '
+              'or random, or with NaN/inf entries; the decisions of equal (both directions, reflexivity, clone, densification, other shape), allclose '
+              'over five (rtol, atol) settings incl. an asymmetric one, equal_default/allclose_default and MultiTensor.allclose with absent blocks are '
+              'compared with torch.equal/torch.allclose on operands densified by index arithmetic of our own.'),
+        design_ref='DESIGN.md §4 C13'),
 }
 
 NOT_BUILT = {}
